@@ -41,6 +41,8 @@ def parse_event(e):
     if e.startswith('pull:'):
         _, i, n = e.split(':')
         return {'k': 'pull', 'id': int(i), 'n': int(n)}
+    if e == 'txw':
+        return {'k': 'txw'}
     return {'k': '?', 'raw': e}
 
 
